@@ -19,24 +19,25 @@ theorem parent_none_of_unlocked (t : Task) (hi : t.idsOk = true) (h : t.isLocked
   rw [isLocked_iff t hi] at h
   cases hp : t.parent <;> simp_all
 
-/-- What holds of the id strings of every roster entry: hostname and offer id are never blanked;
+/-- What holds of the id strings of every roster entry: the offer id is never blanked;
     agent id and executor id are blanked only by a lost agent / executor, which also makes the
-    task INACTIVE (and TASK_RUNNING, which makes it ACTIVE, writes both again). -/
+    task INACTIVE (and TASK_RUNNING, which makes it ACTIVE, writes both again). (The hostname is
+    written once, from the offer, and may be empty from birth: `hostOk` is not part of this.) -/
 def Task.sound (t : Task) : Prop :=
-  t.hostOk = true ∧ t.offer = true ∧ (t.active = true → t.agent = true ∧ t.executor = true)
+  t.offer = true ∧ (t.active = true → t.agent = true ∧ t.executor = true)
 
 theorem sound_of_idsOk (t : Task) (h : t.idsOk = true) : t.sound := by
   simp only [Task.idsOk, Bool.and_eq_true] at h
-  exact ⟨h.1.1.1, h.1.2, fun _ => ⟨h.1.1.2, h.2⟩⟩
+  exact ⟨h.1.2, fun _ => ⟨h.1.1.2, h.2⟩⟩
 
-theorem idsOk_of_sound_active (t : Task) (h : t.sound) (ha : t.active = true) : t.idsOk = true := by
-  obtain ⟨a, b, c⟩ := h
-  simp [Task.idsOk, a, b, c ha]
+theorem idsOk_of_sound_active (t : Task) (h : t.sound) (hh : t.hostOk = true) (ha : t.active = true) : t.idsOk = true := by
+  obtain ⟨b, c⟩ := h
+  simp [Task.idsOk, hh, b, c ha]
 
 /-- Rewriting fields other than the id strings and the status keeps soundness. -/
-theorem sound_congr {t t' : Task} (h1 : t'.hostOk = t.hostOk) (h2 : t'.offer = t.offer) (h3 : t'.agent = t.agent)
+theorem sound_congr {t t' : Task} (_h1 : t'.hostOk = t.hostOk) (h2 : t'.offer = t.offer) (h3 : t'.agent = t.agent)
     (h4 : t'.executor = t.executor) (h5 : t'.active = t.active) : t.sound → t'.sound := by
-  intro h; unfold Task.sound at *; rw [h1, h2, h3, h4, h5]; exact h
+  intro h; unfold Task.sound at *; rw [h2, h3, h4, h5]; exact h
 
 /-! ### the invariant -/
 
@@ -284,7 +285,7 @@ theorem inv_mesosStart (s : State) (k : EnvId) (h : Inv s) : Inv (mesosStart s k
   apply inv_of_maps h (fun t => if t.id ∈ (List.map (·.id) (s.master.filter (fun m => decide (m.label = k) && decide (m.mesos = .staging)))) then { t with active := true, agent := true, executor := true } else t) id
   · intro t
     split
-    · exact ⟨rfl, fun hs => ⟨hs.1, hs.2.1, fun _ => ⟨rfl, rfl⟩⟩, rfl⟩
+    · exact ⟨rfl, fun hs => ⟨hs.1, fun _ => ⟨rfl, rfl⟩⟩, rfl⟩
     · exact ⟨rfl, id, rfl⟩
   · intro E; simp
   · rfl
@@ -325,7 +326,7 @@ theorem statusUpdate_code_entry (x : TaskId) (u : StatusUpd) (t : Task) :
     · rw [if_pos rfl]
       refine ⟨rfl, rfl, rfl, rfl, rfl, rfl, rfl, rfl, ?_, fun _ => rfl⟩
       intro hs
-      exact ⟨hs.1, hs.2.1, fun _ => ⟨hc'.1.2, hc'.2⟩⟩
+      exact ⟨hs.1, fun _ => ⟨hc'.1.2, hc'.2⟩⟩
   · have e : t' = t := by
       show (if decide (t.id = x) && t.agent && t.executor then t.onStatus TaskIds.codeGuards u else t) = _
       rw [if_neg hc]
@@ -965,7 +966,7 @@ theorem locked_of_parent (t : Task) (hi : t.idsOk = true) (e : EnvId) (hp : t.pa
 /-- acquireTasks' commit: claimed (unlocked) tasks and newly launched tasks become the
     tasks of the environment being created. -/
 theorem inv_acquire (s : State) (k : EnvId) (h : Inv s) (hp : ∀ p ∈ s.creating, p.id ≠ k)
-    (cids : List TaskId) (hc : ∀ c ∈ cids, ∃ t ∈ s.roster, t.id = c ∧ t.claimable = true)
+    (cids : List TaskId) (hc : ∀ c ∈ cids, ∃ t ∈ s.roster, t.id = c ∧ t.claimable = true ∧ t.hostOk = true)
     (newTasks : List Task) (n : Nat)
     (hnew : ∀ nt ∈ newTasks, nt.idsOk = true ∧ nt.parent = some k ∧ s.nextTask ≤ nt.id ∧ nt.id < s.nextTask + n)
     (hnd : (newTasks.map (·.id)).Nodup)
@@ -974,13 +975,13 @@ theorem inv_acquire (s : State) (k : EnvId) (h : Inv s) (hp : ∀ p ∈ s.creati
     Inv (setEnv { s with roster := s.roster.map (fun t => if t.id ∈ cids then { t with parent := some k } else t) ++ newTasks,
                          master := M, nextTask := s.nextTask + n } k (fun X => { X with tasks := ids, hooks := hooks })) := by
   have cidFresh : ∀ c ∈ cids, c < s.nextTask := by
-    intro c hcm; obtain ⟨t, ht, rfl, _⟩ := hc c hcm; exact h.fresh t ht
+    intro c hcm; obtain ⟨t, ht, rfl, _, _⟩ := hc c hcm; exact h.fresh t ht
   have cidFree : ∀ c ∈ cids, ∀ E ∈ s.envs, E.tearing = false → c ∉ E.tasks := by
     intro c hcm E hE ht hx
-    obtain ⟨t, htm, rfl, hl⟩ := hc c hcm
+    obtain ⟨t, htm, rfl, hl, hho⟩ := hc c hcm
     have := h.owned E hE ht t htm hx
     simp only [Task.claimable, Bool.and_eq_true, Bool.not_eq_true', decide_eq_true_eq] at hl
-    rw [locked_of_parent t (idsOk_of_sound_active t (h.ids t htm) hl.1.2) _ this] at hl
+    rw [locked_of_parent t (idsOk_of_sound_active t (h.ids t htm) hho hl.1.2) _ this] at hl
     exact absurd hl.1.1 (by simp)
   have idsFree : ∀ i ∈ ids, ∀ E ∈ s.envs, E.tearing = false → i ∉ E.tasks := by
     intro i hi E hE ht hx
@@ -1121,7 +1122,7 @@ theorem assignNew_length (l : List (Nat × RoleSpec)) (n : TaskId) : (assignNew 
   | cons d rest ih => obtain ⟨i, r⟩ := d; simp [assignNew, ih]
 
 theorem claimLoop_sound (roster : List Task) (descs : List (Nat × RoleSpec)) (acc : List (Nat × TaskId)) :
-    ∀ c ∈ claimLoop roster descs acc, c ∈ acc ∨ ∃ t ∈ roster, t.id = c.2 ∧ t.claimable = true := by
+    ∀ c ∈ claimLoop roster descs acc, c ∈ acc ∨ ∃ t ∈ roster, t.id = c.2 ∧ t.claimable = true ∧ t.hostOk = true := by
   induction descs generalizing acc with
   | nil => intro c hc; left; simpa [claimLoop] using hc
   | cons d rest ih =>
@@ -1139,12 +1140,12 @@ theorem claimLoop_sound (roster : List Task) (descs : List (Nat × RoleSpec)) (a
           refine ⟨t, List.mem_of_find?_eq_some ht, rfl, ?_⟩
           have := List.find?_some ht
           simp only [Bool.and_eq_true] at this
-          exact this.1.1.1
+          exact ⟨this.1.1.1.1, this.1.1.1.2⟩
       · right; exact h
     · exact ih _ c hc
 
 theorem computeClaims_sound (s : State) (spec : EnvSpec) :
-    ∀ c ∈ computeClaims s spec, ∃ t ∈ s.roster, t.id = c.2 ∧ t.claimable = true := by
+    ∀ c ∈ computeClaims s spec, ∃ t ∈ s.roster, t.id = c.2 ∧ t.claimable = true ∧ t.hostOk = true := by
   intro c hc
   unfold computeClaims at hc
   split at hc
@@ -1173,7 +1174,7 @@ theorem lookup_mem {α β} [BEq α] [LawfulBEq α] (l : List (α × β)) (a : α
 
 theorem inv_acquire_fn (s : State) (k : EnvId) (spec : EnvSpec) (claims : List (Nat × TaskId)) (o : SettleOracle)
     (h : Inv s) (hp : ∀ p ∈ s.creating, p.id ≠ k)
-    (hc : ∀ c ∈ claims, ∃ t ∈ s.roster, t.id = c.2 ∧ t.claimable = true) :
+    (hc : ∀ c ∈ claims, ∃ t ∈ s.roster, t.id = c.2 ∧ t.claimable = true ∧ t.hostOk = true) :
     Inv (acquire s k spec claims o).s := by
   unfold acquire
   simp only []
@@ -1218,8 +1219,8 @@ theorem lose_props (agent : Bool) (t : Task) :
     (t.lose agent).host = t.host ∧ (t.lose agent).active = false := by
   unfold Task.lose
   split
-  · exact ⟨rfl, fun hs => ⟨hs.1, hs.2.1, fun ha => by simp at ha⟩, rfl, rfl, rfl⟩
-  · exact ⟨rfl, fun hs => ⟨hs.1, hs.2.1, fun ha => by simp at ha⟩, rfl, rfl, rfl⟩
+  · exact ⟨rfl, fun hs => ⟨hs.1, fun ha => by simp at ha⟩, rfl, rfl, rfl⟩
+  · exact ⟨rfl, fun hs => ⟨hs.1, fun ha => by simp at ha⟩, rfl, rfl, rfl⟩
 
 theorem hostLost_roster (s : State) (h : Host) (agent : Bool) :
     (hostLost s h agent).roster = s.roster.map (fun t => if t.hitBy agent h then t.lose agent else t) := rfl
@@ -1329,6 +1330,114 @@ theorem inv_createConfigure (s : State) (k : EnvId) (spec : EnvSpec) (a : Acq) (
     · exact inv_createFail _ k a.ids o.late .errConfigure o.hookFails h3
         (by rw [(lostAll_frame _ _).2.1]; exact hp)
 
+
+/-! ### a deployment that fails in acquireTasks' lock loop -/
+
+theorem afterLockFailure_props (c : Cfg) (t : Task) :
+    (t.afterLockFailure c).id = t.id ∧ (t.afterLockFailure c).offer = t.offer ∧ (t.afterLockFailure c).agent = t.agent ∧
+    (t.afterLockFailure c).executor = t.executor ∧ (t.afterLockFailure c).active = t.active ∧
+    (t.afterLockFailure c).hostOk = t.hostOk ∧ (t.afterLockFailure c).host = t.host ∧
+    ((t.afterLockFailure c).parent = none ∨
+      ((t.afterLockFailure c).parent = t.parent ∧ c.detachOnSpot = true ∧ t.fields.locked = true)) := by
+  unfold Task.afterLockFailure
+  split
+  · rename_i hc
+    simp only [Bool.and_eq_true] at hc
+    exact ⟨rfl, rfl, rfl, rfl, rfl, rfl, rfl, Or.inr ⟨rfl, hc.1, hc.2⟩⟩
+  · exact ⟨rfl, rfl, rfl, rfl, rfl, rfl, rfl, Or.inl rfl⟩
+
+/-- The code (every configuration but the one that is not the code): after a failed lock loop a deployed task has no parent. -/
+theorem afterLockFailure_code (c : Cfg) (hc : c.detachOnSpot = false) (t : Task) : (t.afterLockFailure c).parent = none := by
+  rcases (afterLockFailure_props c t).2.2.2.2.2.2.2 with h | ⟨_, h, _⟩
+  · exact h
+  · rw [hc] at h; exact absurd h (by simp)
+
+/-- What acquireTasks appends to the roster after a failed lock loop, entry by entry. -/
+theorem acquireUnlocked_new (s : State) (k : EnvId) (toRun : List (Nat × RoleSpec)) (o : SettleOracle) :
+    ∀ t ∈ (launchedTasks s k toRun o).map (Task.afterLockFailure s.cfg),
+      ∃ x ∈ assignNew toRun s.nextTask, t.id = x.2.2 ∧ t.host = x.2.1.host ∧ t.offer = true ∧ t.agent = true ∧ t.executor = true ∧
+        (t.parent = none ∨ (t.parent = some k ∧ s.cfg.detachOnSpot = true)) := by
+  intro t ht
+  obtain ⟨t0, ht0, rfl⟩ := List.mem_map.mp ht
+  unfold launchedTasks at ht0
+  obtain ⟨x, hx, rfl⟩ := List.mem_map.mp ht0
+  have P := afterLockFailure_props s.cfg
+    { id := x.2.2, cls := x.2.1.cls, host := x.2.1.host, hostOk := decide (x.2.1.host ∉ blankHosts s o),
+      agent := true, offer := true, executor := true, parent := some k,
+      active := (launchOf o x.1).active && decide ((launchOf o x.1).mesos = .running),
+      state := if (launchOf o x.1).mesos = .terminal then .ERROR else .STANDBY }
+  refine ⟨x, hx, P.1, P.2.2.2.2.2.2.1, P.2.1, P.2.2.1, P.2.2.2.1, ?_⟩
+  rcases P.2.2.2.2.2.2.2 with h | ⟨h, hd, _⟩
+  · exact Or.inl h
+  · exact Or.inr ⟨h, hd⟩
+
+theorem acquireUnlocked_new_ids (s : State) (k : EnvId) (toRun : List (Nat × RoleSpec)) (o : SettleOracle) :
+    ((launchedTasks s k toRun o).map (Task.afterLockFailure s.cfg)).map (·.id) = (assignNew toRun s.nextTask).map (fun x => x.2.2) := by
+  unfold launchedTasks
+  rw [List.map_map, List.map_map]
+  apply List.map_congr_left
+  intro x _
+  exact (afterLockFailure_props s.cfg _).1
+
+/-- The roster, the master's table and the id counter grow; nothing else changes. -/
+theorem acquireUnlocked_frame (s : State) (k : EnvId) (toRun : List (Nat × RoleSpec)) (o : SettleOracle) :
+    (acquireUnlocked s k toRun o).envs = s.envs ∧ (acquireUnlocked s k toRun o).creating = s.creating ∧
+    (acquireUnlocked s k toRun o).killLog = s.killLog ∧ (acquireUnlocked s k toRun o).reuse = s.reuse ∧
+    (acquireUnlocked s k toRun o).crashed = s.crashed ∧ (acquireUnlocked s k toRun o).cfg = s.cfg ∧
+    (acquireUnlocked s k toRun o).used = s.used ∧ (acquireUnlocked s k toRun o).dead = s.dead :=
+  ⟨rfl, rfl, rfl, rfl, rfl, rfl, rfl, rfl⟩
+
+/-- acquireTasks' failed lock loop keeps the invariant — in every configuration: the appended entries are new
+    (fresh ids), sound, and referenced by no environment. -/
+theorem inv_acquireUnlocked (s : State) (k : EnvId) (toRun : List (Nat × RoleSpec)) (o : SettleOracle) (h : Inv s) :
+    Inv (acquireUnlocked s k toRun o) := by
+  have hr := assignNew_range toRun s.nextTask
+  rw [← assignNew_length toRun s.nextTask] at hr
+  have N := acquireUnlocked_new s k toRun o
+  have memT : ∀ t ∈ (acquireUnlocked s k toRun o).roster,
+      t ∈ s.roster ∨ t ∈ (launchedTasks s k toRun o).map (Task.afterLockFailure s.cfg) := by
+    intro t ht; exact List.mem_append.mp ht
+  constructor
+  · intro t ht
+    rcases memT t ht with ho | hn
+    · exact h.ids t ho
+    · obtain ⟨x, _, _, _, h1, h2, h3, _⟩ := N t hn
+      exact ⟨h1, fun _ => ⟨h2, h3⟩⟩
+  · intro t ht
+    show t.id < s.nextTask + (assignNew toRun s.nextTask).length
+    rcases memT t ht with ho | hn
+    · have := h.fresh t ho; nomega
+    · obtain ⟨x, hx, he, _⟩ := N t hn
+      rw [he]; exact (hr x hx).2
+  · show ((s.roster ++ (launchedTasks s k toRun o).map (Task.afterLockFailure s.cfg)).map (·.id)).Nodup
+    rw [List.map_append, acquireUnlocked_new_ids, List.nodup_append]
+    refine ⟨h.rosterNodup, assignNew_nodup _ _, ?_⟩
+    intro a ha b hb
+    obtain ⟨t, ht, rfl⟩ := List.mem_map.mp ha
+    obtain ⟨x, hx, rfl⟩ := List.mem_map.mp hb
+    have h1 := h.fresh t ht
+    have h2 := (hr x hx).1
+    intro e; rw [e] at h1; nomega
+  · intro E hE x hx
+    show x < s.nextTask + (assignNew toRun s.nextTask).length
+    have := h.envFresh E hE x hx; nomega
+  · exact h.envUsed
+  · exact h.envNodup
+  · exact h.hooksSub
+  · exact h.disjoint
+  · intro E hE hte t ht hin
+    rcases memT t ht with ho | hn
+    · exact h.owned E hE hte t ho hin
+    · obtain ⟨x, hx, he, _⟩ := N t hn
+      have h1 := h.envFresh E hE t.id hin
+      have h2 := (hr x hx).1
+      rw [he] at h1; nomega
+  · exact h.pendUsed
+  · exact h.pendNodup
+  · exact h.pendFresh
+  · exact h.pendListed
+  · exact h.pendClaims
+
 theorem acquire_creating (s : State) (k : EnvId) (spec : EnvSpec) (claims : List (Nat × TaskId)) (o : SettleOracle) :
     (acquire s k spec claims o).s.creating = s.creating := rfl
 
@@ -1351,10 +1460,12 @@ theorem inv_createSettle (s : State) (k : EnvId) (o : SettleOracle) (h : Inv s) 
       rw [hcl]
       split
       · exact inv_congr hd rfl rfl rfl rfl rfl
-      · have ha := inv_acquire_fn (dropPending s k) k p.spec (computeClaims (dropPending s k) p.spec) o hd hp (computeClaims_sound _ _)
-        split
-        · exact inv_createFail _ k _ o.late .errDeploy o.hookFails ha hp
-        · exact inv_createConfigure _ k p.spec _ o ha hp
+      · split
+        · exact inv_createFail _ k [] o.late .errDeploy [] (inv_acquireUnlocked _ k _ o hd) hp
+        · have ha := inv_acquire_fn (dropPending s k) k p.spec (computeClaims (dropPending s k) p.spec) o hd hp (computeClaims_sound _ _)
+          split
+          · exact inv_createFail _ k _ o.late .errDeploy o.hookFails ha hp
+          · exact inv_createConfigure _ k p.spec _ o ha hp
 
 end Own
 
@@ -1570,10 +1681,12 @@ theorem killOk_createSettle (s : State) (k : EnvId) (o : SettleOracle) (h : Kill
     · generalize claimsOf (dropPending s k) p = claims
       split
       · exact killOk_congr h rfl
-      · have ha : KillOk (acquire (dropPending s k) k p.spec claims o).s := killOk_congr h (acquire_killLog _ _ _ _ _)
-        split
-        · exact killOk_createFail _ _ _ _ _ _ ha
-        · exact killOk_createConfigure _ _ _ _ _ ha
+      · split
+        · exact killOk_createFail _ _ _ _ _ _ (killOk_congr h rfl)
+        · have ha : KillOk (acquire (dropPending s k) k p.spec claims o).s := killOk_congr h (acquire_killLog _ _ _ _ _)
+          split
+          · exact killOk_createFail _ _ _ _ _ _ ha
+          · exact killOk_createConfigure _ _ _ _ _ ha
 
 theorem killOk_step (s : State) (st : Step) (h : KillOk s) : KillOk (step s st).1 := by
   unfold step
@@ -1856,10 +1969,12 @@ theorem sub_createSettle (s : State) (k : EnvId) (o : SettleOracle) : Sub s (cre
     · generalize claimsOf (dropPending s k) p = claims
       split
       · exact hd.trans (sub_of_same rfl rfl)
-      · have ha := hd.trans (sub_acquire (dropPending s k) k p.spec claims o)
-        split
-        · exact ha.trans (sub_createFail _ _ _ _ _ _)
-        · exact ha.trans (sub_createConfigure _ _ _ _ _)
+      · split
+        · exact (hd.trans (sub_of_same (s' := acquireUnlocked (dropPending s k) k _ o) rfl rfl)).trans (sub_createFail _ _ _ _ _ _)
+        · have ha := hd.trans (sub_acquire (dropPending s k) k p.spec claims o)
+          split
+          · exact ha.trans (sub_createFail _ _ _ _ _ _)
+          · exact ha.trans (sub_createConfigure _ _ _ _ _)
 
 theorem sub_control (s : State) (k : EnvId) (ev : CEv) (fails : List (TaskId × Bool)) (pre : Bool) :
     Sub s (control s k ev fails pre).1 := by
@@ -2201,10 +2316,12 @@ theorem rc_createSettle (s : State) (k : EnvId) (o : SettleOracle)
         show (s.reuse && s.cfg.unlockUnpaired) = false
         rcases h with h | h <;> simp [h]
       simp only [this, Bool.false_and, Bool.false_eq_true, if_false]
-      have ha : RC s (acquire (dropPending s k) k p.spec claims o).s := hd.trans ⟨rfl, rfl, rfl⟩
       split
-      · exact ha.trans (rc_createFail _ _ _ _ _ _)
-      · exact ha.trans (rc_createConfigure _ _ _ _ _)
+      · exact (hd.trans (show RC (dropPending s k) (acquireUnlocked (dropPending s k) k _ o) from ⟨rfl, rfl, rfl⟩)).trans (rc_createFail _ _ _ _ _ _)
+      · have ha : RC s (acquire (dropPending s k) k p.spec claims o).s := hd.trans ⟨rfl, rfl, rfl⟩
+        split
+        · exact ha.trans (rc_createFail _ _ _ _ _ _)
+        · exact ha.trans (rc_createConfigure _ _ _ _ _)
 
 /-- Without reuseUnlockedTasks a settling creation does not end the process. -/
 theorem crash_free_settle (s : State) (k : EnvId) (o : SettleOracle) (hr : s.reuse = false) (hc : s.crashed = false) :
@@ -2477,12 +2594,15 @@ theorem singleWeight_cases (hs : List HookRef) (h : singleWeight hs = true) :
 /-- The two ReleaseTasks messages of a teardown release exactly the environment's tasks: always in
     the code as it is (the second message names the hook tasks of all weights), under
     `hooksReleasable` in the legacy configuration (`hooksOk`). -/
-theorem release_all (s : State) (k : EnvId) (E : Env) (hwf : envWf s k E.tasks = true)
+theorem release_all' (s : State) (k : EnvId) (E : Env) (hpar0 : ∀ t ∈ s.roster, t.id ∈ E.tasks → t.parent = some k)
     (hrel : hooksOk s E.hooks = true) (hhk : ∀ h ∈ E.hooks, h.task ∈ E.tasks)
     (s1 : State) (hs1 : s1.roster = s.roster.map (relMap k (tdPlain E))) (hc1 : s1.cfg = s.cfg) :
     ∀ t ∈ s.roster, relMap k (tdMsg s1 E) (relMap k (tdPlain E) t) = relAll E.tasks t := by
-  simp only [envWf, Bool.and_eq_true, List.all_eq_true, Bool.or_eq_true, decide_eq_true_eq] at hwf
-  obtain ⟨⟨⟨⟨⟨_, hP2⟩, _⟩, _⟩, _⟩, _⟩ := hwf
+  have hP2 : ∀ t ∈ s.roster, t.id ∉ E.tasks ∨ t.parent = some k := by
+    intro t ht
+    by_cases hin : t.id ∈ E.tasks
+    · exact Or.inr (hpar0 t ht hin)
+    · exact Or.inl hin
   have hmsgsub := tdMsg_sub s1 E hhk
   -- hook tasks are all in the second message
   have hmsg : ∀ x ∈ effHooks E.hooks, x ∈ tdMsg s1 E := by
@@ -2526,6 +2646,20 @@ theorem release_all (s : State) (k : EnvId) (E : Env) (hwf : envWf s k E.tasks =
   · have h1 : t.id ∉ tdPlain E := fun h => hin (tdPlain_sub E _ h)
     have h2 : t.id ∉ tdMsg s1 E := fun h => hin (hmsgsub _ h)
     simp [relAll, hin, relMap, h1, h2]
+
+theorem wf_parent' (s : State) (k : EnvId) (tasks : List TaskId) (hwf : envWf s k tasks = true) :
+    ∀ t ∈ s.roster, t.id ∈ tasks → t.parent = some k := by
+  simp only [envWf, Bool.and_eq_true, List.all_eq_true, Bool.or_eq_true, decide_eq_true_eq] at hwf
+  intro t ht hin
+  rcases hwf.1.1.1.1.2 t ht with h | h
+  · exact absurd hin h
+  · exact h
+
+theorem release_all (s : State) (k : EnvId) (E : Env) (hwf : envWf s k E.tasks = true)
+    (hrel : hooksOk s E.hooks = true) (hhk : ∀ h ∈ E.hooks, h.task ∈ E.tasks)
+    (s1 : State) (hs1 : s1.roster = s.roster.map (relMap k (tdPlain E))) (hc1 : s1.cfg = s.cfg) :
+    ∀ t ∈ s.roster, relMap k (tdMsg s1 E) (relMap k (tdPlain E) t) = relAll E.tasks t :=
+  release_all' s k E (wf_parent' s k E.tasks hwf) hrel hhk s1 hs1 hc1
 
 end Own
 
@@ -2633,8 +2767,8 @@ theorem wf_parent (s : State) (k : EnvId) (tasks : List TaskId) (hwf : envWf s k
 /-- What a teardown that runs to completion leaves, under the well-formedness and
     hook hypotheses: exactly the environment's tasks released, the master and the kill log
     untouched, the environment out of the listing and its call counters in `dead`. -/
-theorem teardown_done_state (s : State) (k : EnvId) (force late : Bool) (hf : List TaskId) (E : Env)
-    (hE : s.env? k = some E) (hwf : envWf s k E.tasks = true) (hrel : hooksOk s E.hooks = true)
+theorem teardown_done_state' (s : State) (k : EnvId) (force late : Bool) (hf : List TaskId) (E : Env)
+    (hE : s.env? k = some E) (hpar : ∀ t ∈ s.roster, t.id ∈ E.tasks → t.parent = some k) (hrel : hooksOk s E.hooks = true)
     (hhk : ∀ h ∈ E.hooks, h.task ∈ E.tasks)
     (hdone : (teardown s k force late hf).2.1 = .ok ∨ (teardown s k force late hf).2.1 = .doneErr) :
     (teardown s k force late hf).1.roster = s.roster.map (relAll E.tasks) ∧
@@ -2644,7 +2778,6 @@ theorem teardown_done_state (s : State) (k : EnvId) (force late : Bool) (hf : Li
     (∀ X ∈ s.envs, X.id ≠ k → X ∈ (teardown s k force late hf).1.envs) ∧
     (teardown s k force late hf).1.dead = s.dead ++ (s.envs.filter (fun X => decide (X.id = k))).map
       (fun X => (X.id, X.started, X.cancelled + X.pending)) := by
-  have hpar := wf_parent s k E.tasks hwf
   have herr1 : (releaseTasks s k (tdPlain E)).2 = 0 :=
     releaseTasks_errs_zero s k _ (fun t ht hx => Or.inl (hpar t ht (tdPlain_sub E _ hx)))
   revert hdone
@@ -2685,7 +2818,7 @@ theorem teardown_done_state (s : State) (k : EnvId) (force late : Bool) (hf : Li
     rw [List.map_map]
     apply List.map_congr_left
     intro t ht
-    exact release_all s k E hwf hrel hhk (releaseTasks s k (tdPlain E)).1 rfl rfl t ht
+    exact release_all' s k E hpar hrel hhk (releaseTasks s k (tdPlain E)).1 rfl rfl t ht
   · intro X hX
     obtain ⟨hm, hne⟩ := List.mem_filter.mp hX
     rw [henvs] at hm
@@ -2707,6 +2840,20 @@ theorem teardown_done_state (s : State) (k : EnvId) (force late : Bool) (hf : Li
     intro X hX
     have hk : X.id = k := by simpa using (List.mem_filter.mp hX).2
     simp [hk]
+
+/-- What a teardown that runs to completion leaves, under the well-formedness and hook hypotheses. -/
+theorem teardown_done_state (s : State) (k : EnvId) (force late : Bool) (hf : List TaskId) (E : Env)
+    (hE : s.env? k = some E) (hwf : envWf s k E.tasks = true) (hrel : hooksOk s E.hooks = true)
+    (hhk : ∀ h ∈ E.hooks, h.task ∈ E.tasks)
+    (hdone : (teardown s k force late hf).2.1 = .ok ∨ (teardown s k force late hf).2.1 = .doneErr) :
+    (teardown s k force late hf).1.roster = s.roster.map (relAll E.tasks) ∧
+    (teardown s k force late hf).1.master = s.master ∧
+    (teardown s k force late hf).1.killLog = s.killLog ∧
+    (∀ X ∈ (teardown s k force late hf).1.envs, X ∈ s.envs ∧ X.id ≠ k) ∧
+    (∀ X ∈ s.envs, X.id ≠ k → X ∈ (teardown s k force late hf).1.envs) ∧
+    (teardown s k force late hf).1.dead = s.dead ++ (s.envs.filter (fun X => decide (X.id = k))).map
+      (fun X => (X.id, X.started, X.cancelled + X.pending)) :=
+  teardown_done_state' s k force late hf E hE (wf_parent s k E.tasks hwf) hrel hhk hdone
 
 /-- A teardown that answers "error" or "not found" has, under well-formedness, changed nothing. -/
 theorem teardown_err_unchanged (s : State) (k : EnvId) (force late : Bool) (hf : List TaskId)
@@ -3142,12 +3289,11 @@ theorem destroy_clean (s : State) (k : EnvId) (force allow keep : Bool) (o : DOr
 
 /-- A forced teardown of a listed, not torn, not DONE environment never answers "error" or
     "not found" when the bookkeeping is well-formed: it completes or hangs. -/
-theorem teardown_forced_res (s : State) (k : EnvId) (late : Bool) (hf : List TaskId) (E : Env)
+theorem teardown_forced_res' (s : State) (k : EnvId) (late : Bool) (hf : List TaskId) (E : Env)
     (hE : s.env? k = some E) (hte : E.tearing = false) (hnd : E.state ≠ .DONE)
-    (hwf : envWf s k E.tasks = true) (hhk : ∀ h ∈ E.hooks, h.task ∈ E.tasks) :
+    (hpar : ∀ t ∈ s.roster, t.id ∈ E.tasks → t.parent = some k) (hhk : ∀ h ∈ E.hooks, h.task ∈ E.tasks) :
     (teardown s k true late hf).2.1 = .ok ∨ (teardown s k true late hf).2.1 = .doneErr ∨
     (teardown s k true late hf).2.1 = .hang := by
-  have hpar := wf_parent s k E.tasks hwf
   have herr1 : (releaseTasks s k (tdPlain E)).2 = 0 :=
     releaseTasks_errs_zero s k _ (fun t ht hx => Or.inl (hpar t ht (tdPlain_sub E _ hx)))
   unfold teardown
@@ -3176,6 +3322,13 @@ theorem teardown_forced_res (s : State) (k : EnvId) (late : Bool) (hf : List Tas
   split
   · right; left; rfl
   · left; rfl
+
+theorem teardown_forced_res (s : State) (k : EnvId) (late : Bool) (hf : List TaskId) (E : Env)
+    (hE : s.env? k = some E) (hte : E.tearing = false) (hnd : E.state ≠ .DONE)
+    (hwf : envWf s k E.tasks = true) (hhk : ∀ h ∈ E.hooks, h.task ∈ E.tasks) :
+    (teardown s k true late hf).2.1 = .ok ∨ (teardown s k true late hf).2.1 = .doneErr ∨
+    (teardown s k true late hf).2.1 = .hang :=
+  teardown_forced_res' s k late hf E hE hte hnd (wf_parent s k E.tasks hwf) hhk
 
 /-- A teardown only hangs in an environment in which an earlier one hung, or by the oracle of the
     rendezvous race — which has a say in a configuration with the late delete only. -/
@@ -3620,10 +3773,12 @@ theorem keepsOthers_createSettle (s : State) (k : EnvId) (o : SettleOracle) : Ke
     · exact hd.trans (keepsOthers_createFail _ _ _ _ _ _)
     · split
       · exact hd.trans (KeepsOthers.of_envs rfl)
-      · have ha := hd.trans (keepsOthers_acquire (dropPending s k) k p.spec (claimsOf (dropPending s k) p) o)
-        split
-        · exact ha.trans (keepsOthers_createFail _ _ _ _ _ _)
-        · exact ha.trans (keepsOthers_createConfigure _ _ _ _ _)
+      · split
+        · exact (hd.trans (KeepsOthers.of_envs (s' := acquireUnlocked (dropPending s k) k _ o) rfl)).trans (keepsOthers_createFail _ _ _ _ _ _)
+        · have ha := hd.trans (keepsOthers_acquire (dropPending s k) k p.spec (claimsOf (dropPending s k) p) o)
+          split
+          · exact ha.trans (keepsOthers_createFail _ _ _ _ _ _)
+          · exact ha.trans (keepsOthers_createConfigure _ _ _ _ _)
 
 /-- **What the settling of a creation — successful or failed, with or without reuse of unlocked tasks — does to
     the tasks of the other environments: nothing.** In a state of a run (`Inv`), a roster task that a live
